@@ -1339,7 +1339,8 @@ class QvmCpu:
             length = length.value
 
         if length is None:
-            length = len(string) - start + 1
+            # to the end of the string (nothing, if start is beyond it)
+            length = max(len(string) - start + 1, 0)
 
         if length < 0:
             self.trap(TrapCode.INVALID_OPERAND_VALUE,
